@@ -40,7 +40,7 @@ META = dict(
     rule='one case = (model, history); obligations of C01/C02 (ro) resp. C03/C04 (dro) on the program compiled after '
          'the history + equality of exact optima with the fresh build; non-trivial = program feasible, rows decided, '
          'optimum compared; distinct by (model, history)',
-    bounds='12 ro members x 6 histories (+ pairs of histories in thorough), 6 dro histories; history length <= 10 calls',
+    bounds='12 ro members x 6 histories (+ pairs of histories in thorough), 6 dro histories; history length <= 10 calls; 5 expression-reuse members (one Affine / RoAffine / decision-rule object indexed or summed in one constraint, then reshaped / transposed / flattened in another, both orders, against a fresh object per use)',
     outside='histories involving soc_solve (C18), other solvers than the default inside the history',
     assumptions=['as C01-C04'],
 )
@@ -62,6 +62,10 @@ def cases(tier, seed, rnd):
         cs.append(dict(k='dro', name=nm))
     for v in LATE_RVAR:
         cs.append(dict(k='late-rvar', name=v))
+    for v in EXPR_REUSE:
+        cs.append(dict(k='expr-reuse', name=v))
+    for v in EMPTY_SET:
+        cs.append(dict(k='empty-set', name=v))
     return cs
 
 
@@ -70,6 +74,10 @@ def run_case(case, ses):
         return run_ro(case, ses)
     if case['k'] == 'late-rvar':
         return run_late_rvar(case, ses)
+    if case['k'] == 'expr-reuse':
+        return run_expr_reuse(case, ses)
+    if case['k'] == 'empty-set':
+        return run_empty_set(case, ses)
     return run_dro(case, ses)
 
 
@@ -106,7 +114,8 @@ def run_ro(case, ses):
 
 
 # ------------------------------------------------------------------ random variables declared after a set was compiled
-LATE_RVAR = ['default-set-scalar', 'default-set-vector', 'forall-set', 'default-set-constant-coefficient']
+LATE_RVAR = ['default-set-scalar', 'default-set-vector', 'forall-set', 'default-set-constant-coefficient',
+             'aux-set-then-lp-set', 'aux-forall-set-then-lp-set']
 
 
 def late_rvar_model(variant, late):
@@ -114,6 +123,30 @@ def late_rvar_model(variant, late):
     objective / the first constraint with its set were handed to the model (late=True).  No set mentions it: it is unrestricted."""
     from rsome import ro
     import rsome as rso
+    if variant in ('aux-set-then-lp-set', 'aux-forall-set-then-lp-set'):
+        # a set WITH auxiliary columns (1-norm) is compiled, then a set without any, then the random variable is declared: it
+        # must not be taken for an auxiliary column of the older set
+        m = ro.Model()
+        x = m.dvar()
+        y = m.dvar()
+        z = m.rvar(2)
+        w_ = None if late else m.rvar()
+        S1 = (rso.norm(z, 1) <= 1.5,)
+        if variant == 'aux-set-then-lp-set':
+            m.minmax(-x + y + 0 * z[0], *S1)
+            c_old = None
+        else:
+            m.min(-x + y)
+            c_old = (x * z[1] - 8 * y <= 12).forall(*S1)
+        m.st((x * z[0] - y <= 100).forall(z >= 0, z <= 1))
+        if late:
+            w_ = m.rvar()
+        if c_old is None:
+            m.st(x * w_ - 2 * y <= 5)
+        else:
+            m.st((x * w_ + x * z[1] - 8 * y <= 12).forall(*S1) if not late else ((x * w_ - 8 * y) + x * z[1] <= 12).forall(*S1))
+        m.st(x <= 10, x >= 0, y >= 0, y <= 5)
+        return m
     m = ro.Model()
     x = m.dvar()
     y = m.dvar()
@@ -164,6 +197,141 @@ def run_late_rvar(case, ses):
         finding(ses, 'C09:late-rvar:%s' % v, 'model %s: random variable declared after the set was compiled: optimum %s (%s), '
                 'declared before: %s (%s)' % (v, res[True][1], res[True][0], res[False][1], res[False][0]),
                 dict(k='late-rvar', name=v), 'rsv.props.c09:replay')
+
+
+# ------------------------------------------------------------------ an EMPTY set description after another set was compiled
+EMPTY_SET = ['forall-empty', 'minmax-empty', 'forall-empty-after-abs-set']
+
+
+def empty_set_model(variant, earlier):
+    """forall() / minmax(obj) without any set constraint mean 'z unrestricted', whatever set was compiled before (earlier=True:
+    another constraint with a bounded set was built first and never given to the model)."""
+    from rsome import ro
+    import rsome as rso
+    m = ro.Model()
+    x = m.dvar()
+    y = m.dvar()
+    z = m.rvar()
+    if earlier:
+        if variant == 'forall-empty-after-abs-set':
+            (x * z <= 1).forall(abs(z - 3) <= 1)
+        else:
+            (x * z <= 1).forall(z >= 2, z <= 4)
+    if variant == 'minmax-empty':
+        m.minmax(-1.0 * y + x * z)
+        m.st(x >= -1, x <= 10, y <= 3, y >= 0)
+    else:
+        m.max(x + y)
+        m.st(x <= 10, x >= -10, y <= 3, y >= 0)
+        m.st((x * z <= 2).forall())
+    return m
+
+
+def run_empty_set(case, ses):
+    from ..cprog import CProg
+    v = case['name']
+    res = {}
+    for earlier in (False, True):
+        with quiet():
+            P = CProg(empty_set_model(v, earlier).do_math())
+        vs = P.z3vars('a' if earlier else 'b')
+        res[earlier] = ses.optimum(P.constraints(vs), P.obj_term(vs), label='empty-set/%s/%s' % (v, earlier))
+        ses.stats.programs += 1
+    ses.stats.obligations += 1
+    ses.stats.kinds['optimum-vs-fresh-build'] = ses.stats.kinds.get('optimum-vs-fresh-build', 0) + 1
+    if 'unknown' in (res[False][0], res[True][0]):
+        ses.stats.undecided += 1
+    elif res[False] == res[True]:
+        ses.stats.discharged += 1
+        ses.stats.nontrivial.add('empty-set:' + v)
+    else:
+        finding(ses, 'C09:empty-set:%s' % v, 'model %s: a set description without constraints after another set was compiled: '
+                'optimum %s (%s), from scratch: %s (%s)' % (v, res[True][1], res[True][0], res[False][1], res[False][0]),
+                dict(k='empty-set', name=v), 'rsv.props.c09:replay')
+
+
+# ------------------------------------------------------------------ one expression OBJECT used in two constructs
+EXPR_REUSE = ['sum-then-reshape', 'index-then-transpose', 'ldr-slice-then-reshape', 'biaffine-sum-then-flatten', 'index-then-diag']
+
+
+def expr_reuse_model(variant, order):
+    """Two uses of one expression object (order 'ab' / 'ba'), or a fresh object per use ('fresh'): what the object was used for
+    before must not change what it means in the second construct."""
+    from rsome import ro
+    import rsome as rso
+    m = ro.Model()
+    x = m.dvar((2, 3))
+    z = m.rvar(3)
+    base = np.array([[1.0, 0.5, 2.0], [0.0, 1.5, 0.25]])
+    cost = np.array([[1.0, 2.0, 1.5], [2.5, 1.0, 3.0]])
+    S = (abs(z) <= 1, rso.norm(z, 1) <= 1.5)
+    m.minmax((cost * x).sum() + 0.25 * z.sum(), *S)
+    m.st(x >= 0, x <= 9)
+    if variant == 'ldr-slice-then-reshape':
+        y = m.ldr((2, 3))
+        y.adapt(z)
+        mk = lambda: y
+        m.st(y >= -3, y <= 12, x >= y - 2.0)
+    elif variant == 'biaffine-sum-then-flatten':
+        mk = lambda: 0.5 * (x * z) + x + base
+    else:
+        mk = lambda: x + base
+    shared = mk()
+    get = (lambda: mk()) if order == 'fresh' else (lambda: shared)
+
+    def use_a():
+        e = get()
+        if variant in ('sum-then-reshape', 'biaffine-sum-then-flatten'):
+            m.st(e.sum(axis=0) >= np.array([3.0, 4.0, 2.0]) + z)
+        elif variant == 'ldr-slice-then-reshape':
+            m.st(e[0, 1:] >= np.array([2.0, 1.0]) + z[:2])
+        else:
+            m.st(e[1, 0] >= 2.0 + z[0])
+
+    def use_b():
+        e = get()
+        if variant == 'sum-then-reshape':
+            m.st(e.reshape((3, 2))[1, 0] >= 5)
+        elif variant == 'index-then-transpose':
+            m.st(e.T[2, 0] + e.T[0, 1] >= 6)
+        elif variant == 'ldr-slice-then-reshape':
+            m.st(e.reshape((3, 2))[2, 0] >= 4.0 - z[2])
+        elif variant == 'biaffine-sum-then-flatten':
+            m.st(e.reshape((6,))[4] >= 3.0)
+        else:
+            m.st(rso.diag(e.reshape((3, 2))[:2, :]).sum() >= 7)
+    for u in ((use_a, use_b) if order != 'ba' else (use_b, use_a)):
+        u()
+    return m
+
+
+def run_expr_reuse(case, ses):
+    from ..cprog import CProg
+    v = case['name']
+    res = {}
+    for order in ('fresh', 'ab', 'ba'):
+        with quiet():
+            P = CProg(expr_reuse_model(v, order).do_math())
+        vs = P.z3vars(order)
+        res[order] = ses.optimum(P.constraints(vs), P.obj_term(vs), label='expr-reuse/%s/%s' % (v, order))
+        ses.stats.programs += 1
+    for order in ('ab', 'ba'):
+        ses.stats.obligations += 1
+        ses.stats.kinds['optimum-vs-fresh-objects'] = ses.stats.kinds.get('optimum-vs-fresh-objects', 0) + 1
+        if 'unknown' in (res['fresh'][0], res[order][0]):
+            ses.stats.undecided += 1
+        elif res['fresh'][0] != 'optimal':
+            raise HarnessError('expr-reuse member %s is not solvable (%s): vacuous' % (v, res['fresh'][0]))
+        elif res['fresh'] == res[order]:
+            ses.stats.discharged += 1
+            ses.stats.nontrivial.add('expr-reuse:%s:%s' % (v, order))
+        else:
+            if not replay(dict(k='expr-reuse', name=v, order=order)):
+                raise HarnessError('expr-reuse counterexample does not reproduce with the real solver: %s/%s' % (v, order))
+            finding(ses, 'C09:expr-reuse:%s:%s' % (v, order), 'model %s: one expression object used in two constructs (order %s): '
+                    'optimum %s (%s), with a fresh object per use: %s (%s)' % (v, order, res[order][1], res[order][0],
+                                                                              res['fresh'][1], res['fresh'][0]),
+                    dict(k='expr-reuse', name=v, order=order), 'rsv.props.c09:replay')
 
 
 def rekey(ses, n0, tag):
@@ -443,6 +611,34 @@ def replay(data, verbose=False):
         finally:
             c03.lookup = orig
             c04.lookup = orig
+    if data.get('k') == 'empty-set':
+        vals = {}
+        for earlier in (False, True):
+            with quiet():
+                mm = empty_set_model(data['name'], earlier)
+                try:
+                    mm.solve(display=False)
+                    vals[earlier] = mm.get()
+                except Exception as e:  # noqa
+                    vals[earlier] = 'no solution (%s)' % str(e)[:60]
+        if verbose:
+            print('real solve(): from scratch %r ; after another set was compiled %r' % (vals[False], vals[True]))
+        a, b = vals[False], vals[True]
+        return isinstance(a, str) != isinstance(b, str) or (not isinstance(a, str) and abs(a - b) > 1e-6 * (1 + abs(a)))
+    if data.get('k') == 'expr-reuse':
+        vals = {}
+        for order in ('fresh', data['order']):
+            with quiet():
+                mm = expr_reuse_model(data['name'], order)
+                try:
+                    mm.solve(display=False)
+                    vals[order] = mm.get()
+                except Exception as e:  # noqa
+                    vals[order] = 'no solution (%s)' % str(e)[:60]
+        if verbose:
+            print('real solve(): fresh object per use %r ; one object, order %s: %r' % (vals['fresh'], data['order'], vals[data['order']]))
+        a, b = vals['fresh'], vals[data['order']]
+        return isinstance(a, str) != isinstance(b, str) or (not isinstance(a, str) and abs(a - b) > 1e-6 * (1 + abs(a)))
     if verbose:
         print('optimum after history differs from the fresh build; spec:', data.get('spec', {}).get('name'))
     return True
